@@ -87,7 +87,8 @@ def tagged_object_below_unknown_key(draw, spec, t):
             and not c.get('abstract')]
     if not objs:
         return None
-    c = draw(st.sampled_from(objs))
+    traps = [c for c in objs if c['name'] == 'Trap']
+    c = draw(st.sampled_from(traps if traps and draw(st.booleans()) else objs))
     v = draw(gen.vspec_for(dict(spec, doc_type=['ref', c['name']]), ['ref', c['name']], hard=False))
     if v is None or v[0] != 'obj':
         return None
@@ -100,14 +101,59 @@ def tagged_object_below_unknown_key(draw, spec, t):
         return None
     p, mp = draw(st.sampled_from(maps))
     mp = copy.deepcopy(mp)
-    mp[1].insert(draw(st.integers(0, len(mp[1]))),
-                 [T.S(draw(st.sampled_from(['zz_extra', 'Key', 'another-key']))), sub])
+    # an unknown key, or a second occurrence of a present key (also under its
+    # dashed spelling: after dashes_to_unders_in_keys both collide)
+    present = [k[1] for k, _ in mp[1] if k[0] == 's']
+    names = ['zz_extra', 'Key', 'another-key'] + present + [k.replace('_', '-') for k in present if '_' in k]
+    mp[1].insert(draw(st.integers(0, len(mp[1]))), [T.S(draw(st.sampled_from(names))), sub])
     return T.set_at(t, p, mp)
+
+
+def duplicate_tagged(draw, spec):
+    """(spec', tree): a document of a class whose duplicate keys the automatic
+    recogniser does not see (custom _yatiml_recognize, or two spellings that
+    dashes_to_unders_in_keys makes collide), with a tagged Trap object under
+    the second occurrence of a key."""
+    import copy
+    cands = []
+    for c in spec['classes']:
+        if c.get('kind', 'obj') != 'obj' or not c.get('reg', True) or c.get('abstract') or c.get('index'):
+            continue
+        custom = isinstance(c.get('recognize'), list)
+        dashes = ['dashes_to_unders'] in (c.get('savorize') or []) and \
+            any('_' in p['name'] for p in c.get('params', []))
+        if custom or dashes:
+            cands.append((c, custom, dashes))
+    if not cands:
+        return None
+    c, custom, dashes = draw(st.sampled_from(cands))
+    spec2 = dict(spec, doc_type=['ref', c['name']])
+    v = draw(gen.vspec_for(spec2, spec2['doc_type'], hard=False, omit_defaults=False))
+    if v is None or v[0] != 'obj' or v[1] != c['name'] or not v[2]:
+        return None
+    t = gen.project(v, spec2)
+    names = [n for n, _ in v[2]]
+    if dashes and (not custom or draw(st.booleans())):
+        und = [n for n in names if '_' in n]
+        if not und:
+            return None
+        key = draw(st.sampled_from(und)).replace('_', '-')
+    else:
+        key = draw(st.sampled_from(names))
+    sub = draw(st.sampled_from([T.M([], '!Trap'), T.M([('a', T.S('1'))], '!Trap'),
+                                T.Q([T.M([], '!Trap')])]))
+    t = copy.deepcopy(t)
+    t[1].append([T.S(key), sub])
+    return spec2, t
 
 
 @st.composite
 def cases(draw):
     spec = draw(gen.models(FEATS))
+    if draw(st.integers(0, 7)) == 0:
+        r = duplicate_tagged(draw, spec)
+        if r is not None:
+            return {'model': r[0], 'text': T.render_flow(r[1]), 'src': 'value+duplicate_tagged'}
     if draw(st.integers(0, 5)) == 0:
         t = alias_typed(draw, spec)
         if t is not None:
